@@ -97,6 +97,10 @@ pub enum BodyForm {
     DropMid(Pay, Chunking, u8),
     /// body of MAX_BODY + delta bytes
     Limit(i8, Chunking),
+    /// a slow client: before chunk k (clamped; = number of chunks: before the end of the body)
+    /// nothing arrives for this many simulated seconds. Legal; a server with an upload idle timeout
+    /// may refuse it (4xx, nothing stored), otherwise the whole body is the upload
+    Slow(Pay, Chunking, u8, u16),
 }
 
 #[derive(Clone, Debug, Serialize, Deserialize, PartialEq)]
@@ -276,7 +280,9 @@ fn gen_wire_op(r: &mut Rng, n_clients: u8, page: u32, allow_big: bool) -> WireOp
             3 => {
                 let py = Pay { class: r.below(ops::N_CLASSES as u64) as u8, len: r.range(2, 5000) as u32, tag: 2_000_000 + r.below(1 << 20) as u32 };
                 let ch = Chunking::Fixed(*r.pick(&[1u32, 7, 100, 1000]));
-                w.body = match r.below(if allow_big { 8 } else { 5 }) {
+                w.body = match r.below(if allow_big { 9 } else { 6 }) {
+                    5 if !allow_big => BodyForm::Slow(py, ch, r.below(4) as u8, *r.pick(&[1u16, 4, 6, 31, 61, 130, 700])),
+                    8 => BodyForm::Slow(py, ch, r.below(4) as u8, *r.pick(&[1u16, 4, 6, 31, 61, 130, 700])),
                     0 | 1 => BodyForm::Empty,
                     2 => BodyForm::OnlyEmptyChunks,
                     3 => BodyForm::WithEmptyChunks(py, ch),
@@ -677,6 +683,7 @@ fn build(plan: &WirePlan, w: &World, op: &WireOp, cur_allow: &Option<HashSet<Uui
     let mut empties = vec![];
     let mut data: Option<Arc<Vec<u8>>> = None;
     let mut big = false;
+    let mut stall: Option<(usize, i64)> = None;
     match &op.body {
         BodyForm::Normal(py, ch) => {
             let mut d = ops::payload(plan.seed, py);
@@ -717,6 +724,15 @@ fn build(plan: &WirePlan, w: &World, op: &WireOp, cur_allow: &Option<HashSet<Uui
             chunks = chunk_body(&Bytes::from(d.as_ref().clone()), ch);
             fail_after = Some((*k as usize).min(chunks.len()));
         }
+        BodyForm::Slow(py, ch, k, secs) => {
+            if is_post {
+                worse(Class::Ambiguous)
+            }
+            let d = ops::payload(plan.seed, py);
+            chunks = chunk_body(&Bytes::from(d.as_ref().clone()), ch);
+            stall = Some(((*k as usize).min(chunks.len()), *secs as i64 * 1_000_000));
+            data = Some(d);
+        }
         BodyForm::Limit(delta, ch) => {
             big = true;
             let n = (MAX_BODY as i64 + *delta as i64) as usize;
@@ -730,6 +746,19 @@ fn build(plan: &WirePlan, w: &World, op: &WireOp, cur_allow: &Option<HashSet<Uui
             }
         }
     }
+    // a client that sends its body in one piece declares its length (what a real HTTP/1.1 client does
+    // when it does not use chunked transfer); for a broken upload the declared length is the intended one
+    if is_post {
+        let whole = match &op.body {
+            BodyForm::Normal(_, ch) | BodyForm::WithEmptyChunks(_, ch) | BodyForm::Limit(_, ch) | BodyForm::Slow(_, ch, ..) | BodyForm::DropMid(_, ch, _) => matches!(ch, Chunking::Whole),
+            BodyForm::Empty => true,
+            BodyForm::OnlyEmptyChunks => false,
+        };
+        if whole {
+            let n: usize = chunks.iter().map(|c| c.len()).sum();
+            headers.push(("Content-Length".into(), n.to_string().into_bytes()));
+        }
+    }
     let req = match (op.route, &data) {
         (Route::AddVersion, Some(d)) => Some(Req::AddVersion { c: cid, parent: idv, data: d.clone() }),
         (Route::AddSnapshot, Some(d)) => Some(Req::AddSnapshot { c: cid, v: idv, data: d.clone() }),
@@ -741,6 +770,7 @@ fn build(plan: &WirePlan, w: &World, op: &WireOp, cur_allow: &Option<HashSet<Uui
             chunks.clear();
             empties.clear();
             fail_after = None;
+            stall = None;
         } else if chunks.len() > 2 {
             chunks.truncate(1);
         }
@@ -751,7 +781,7 @@ fn build(plan: &WirePlan, w: &World, op: &WireOp, cur_allow: &Option<HashSet<Uui
         o => format!("{o:?}").chars().take(24).collect(),
     });
     Built {
-        wire: WireReq { method, path, headers, chunks, fail_after, empties, pending_seed: None },
+        wire: WireReq { method, path, headers, chunks, fail_after, empties, pending_seed: None, stall },
         class,
         cid_bad,
         cid_ambiguous,
@@ -867,6 +897,7 @@ pub fn exec(plan: &WirePlan) -> RunOut {
         }
         // everything else: send, then judge
         w.inst.ctl.begin_request(vec![]);
+        let t_send = sched::now_us();
         let raw: RawResp = match w.app.as_ref().unwrap().send(b.wire.clone()) {
             Ok(r) => r,
             Err(p) => {
@@ -961,7 +992,7 @@ pub fn exec(plan: &WirePlan) -> RunOut {
                     let (resp, enc) = crate::http::decode(req, &raw);
                     let mut m2 = w.model.clone();
                     let t = sched::now_us();
-                    let mm = m2.apply(req, &resp, t, t, true);
+                    let mm = m2.apply(req, &resp, t_send.min(t), t_send.max(t), true);
                     if mm.is_empty() && enc.is_empty() {
                         // adopt, then compare the state with the model
                         w.model = m2;
